@@ -173,6 +173,75 @@ mut("m13-4-defined-dropped-when-many-files", "C13", [(V,
     "    let mut defined = keys;\n    if lalrpop_results.len() > 5 {\n        let n = lalrpop_results.len();\n        defined.retain(|k, _| k.len() % n != 0);\n    }\n")],
     "with more than five files some keys vanish from the registry depending on the number of files")
 
+# ---------------------------------------------------------------- property-preserving changes
+# (prop "NEUTRAL": every check must stay quiet - exit 0, no VIOLATION line)
+mut("n01-add-file-via-fs-read-to-string", "NEUTRAL", [(P,
+    """        #[cfg(not(feature = "verif-hooks"))]
+        let mut file = std::fs::File::open(path.as_ref())?;
+        #[cfg(feature = "verif-hooks")]
+        let mut file = crate::verif::open(path.as_ref())?;
+        let mut buffer = String::new();
+        file.read_to_string(&mut buffer)?;
+""",
+    """        let buffer = std::fs::read_to_string(path.as_ref())?;
+"""), (P, "    io::Read,\n    path::{Path, PathBuf},\n};\n#[cfg(feature", "    path::{Path, PathBuf},\n};\n#[cfg(feature"),
+      (P, "        io::Read,\n        path::{Path, PathBuf},\n    },\n};", "        path::{Path, PathBuf},\n    },\n};")],
+    "refactoring that bypasses the disk seam H2 entirely")
+mut("n02-prefer-largest-matching-import", "NEUTRAL", [(V,
+    "            .filter(|import_path| import_path.ends_with(&suffix))\n            .min()",
+    "            .filter(|import_path| import_path.ends_with(&suffix))\n            .max()")],
+    "another deterministic choice among ambiguous imports")
+mut("n03-other-kind-rank", "NEUTRAL", [(P,
+    "                ast::ResolvedItemKind::Interface => 0,\n                ast::ResolvedItemKind::Parcelable => 1,\n                ast::ResolvedItemKind::Enum => 2,",
+    "                ast::ResolvedItemKind::Interface => 2,\n                ast::ResolvedItemKind::Parcelable => 0,\n                ast::ResolvedItemKind::Enum => 1,")],
+    "another fixed precedence for keys defined by several files")
+mut("n04-correct-keys-cache", "NEUTRAL", [
+    (P, "    lalrpop_results: HashMap<ID, ParseFileResult<ID>>,\n}",
+        "    lalrpop_results: HashMap<ID, ParseFileResult<ID>>,\n    keys_cache: std::sync::Mutex<Option<HashMap<ast::ItemKey, ast::ResolvedItemKind>>>,\n}"),
+    (P, "            lalrpop_results: HashMap::new(),\n        }",
+        "            lalrpop_results: HashMap::new(),\n            keys_cache: std::sync::Mutex::new(None),\n        }"),
+    (P, "        self.lalrpop_results.insert(id, lalrpop_result);",
+        "        *self.keys_cache.get_mut().unwrap() = None;\n        self.lalrpop_results.insert(id, lalrpop_result);"),
+    (P, "        self.lalrpop_results.remove(&id);",
+        "        *self.keys_cache.get_mut().unwrap() = None;\n        self.lalrpop_results.remove(&id);"),
+    (P, "        let keys = self.collect_item_keys();",
+        "        let keys = self\n            .keys_cache\n            .lock()\n            .unwrap()\n            .get_or_insert_with(|| self.collect_item_keys())\n            .clone();"),
+    ], "a key-table cache that IS invalidated by every add and remove")
+mut("n05-sort-by-position-then-message", "NEUTRAL", [(V,
+    "fr.diagnostics.sort_by_key(|d| d.range.start.line_col);",
+    "fr.diagnostics.sort_by(|a, b| {\n                (a.range.start.line_col, &a.message).cmp(&(b.range.start.line_col, &b.message))\n            });")],
+    "a stricter total order of diagnostics")
+mut("n06-add-file-read-to-end", "NEUTRAL", [(P,
+    "        let mut buffer = String::new();\n        file.read_to_string(&mut buffer)?;",
+    "        let mut bytes = Vec::new();\n        file.read_to_end(&mut bytes)?;\n        let buffer = String::from_utf8(bytes)\n            .map_err(|e| std::io::Error::new(std::io::ErrorKind::InvalidData, e))?;")],
+    "another correct way of reading a UTF-8 file")
+mut("n07-new-consistent-diagnostic", "NEUTRAL", [(V,
+    "            // Check methods (e.g.: return type of async methods)\n",
+    """            if let ast::Item::Interface(ref interface) = ast.item {
+                if interface.elements.is_empty() {
+                    fr.diagnostics.push(Diagnostic {
+                        kind: DiagnosticKind::Warning,
+                        range: interface.symbol_range.clone(),
+                        message: format!("Interface `{}` is empty", interface.name),
+                        context_message: Some("empty interface".to_owned()),
+                        hint: None,
+                        related_infos: Vec::new(),
+                    });
+                }
+            }
+
+            // Check methods (e.g.: return type of async methods)
+""")],
+    "a new diagnostic that depends on the file's own text only")
+mut("n08-validate-files-in-sorted-key-order", "NEUTRAL", [(V,
+    "    lalrpop_results\n        .into_iter()\n        .map(|(id, mut fr)| {",
+    "    let mut entries: Vec<(ID, ParseFileResult<ID>)> = lalrpop_results.into_iter().collect();\n    entries.sort_by_key(|(id, _)| format!(\"{:?}\", id));\n    entries\n        .into_iter()\n        .map(|(id, mut fr)| {")],
+    "per-file loop in a fixed order")
+mut("n09-open-twice", "NEUTRAL", [(P,
+    "        #[cfg(feature = \"verif-hooks\")]\n        let mut file = crate::verif::open(path.as_ref())?;",
+    "        #[cfg(feature = \"verif-hooks\")]\n        let mut file = {\n            drop(crate::verif::open(path.as_ref())?);\n            crate::verif::open(path.as_ref())?\n        };")],
+    "the file is opened twice (existence check, then read)")
+
 for name, prop, edits, why in M:
     subprocess.check_call(["git", "-C", wt, "checkout", "-q", "--", "."])
     for f, old, new in edits:
